@@ -462,7 +462,10 @@ NoPanic == pc # "panic"
 \* the covering used by the search is what initCovering is specified to produce
 CoveringOK == pc = "scene-edges" => CoveringGood(scene.cells, Covering(scene.cells))
 
-\* the optimized search never measures an edge twice when it has to avoid duplicates
+\* CONSTRAINT for structure-only runs: explore every admissible set of index cells (all
+\* antichains of the tree up to MaxCells cells) and check CoveringOK, nothing else
+CellsOnly == pc = "scene-cells"
+
 TypeOK ==
     /\ pc \in {"scene-cells", "scene-edges", "scene-bounds", "options", "start", "brute",
                "initq1", "initq2", "loop", "post", "done", "panic"}
